@@ -109,3 +109,436 @@ Proof.
   - intros k e Hk. rewrite Ub in Hk. rewrite Nx. eauto.
   - repeat split; lia.
 Qed.
+
+Lemma aget_notin l k : ~ In k (akeys l) -> aget l k = 0.
+Proof.
+  induction l as [|[k' v] t IH]; simpl; intros H; [reflexivity|].
+  destruct (k' =? k) eqn:E; [apply Z.eqb_eq in E; tauto | apply IH; tauto].
+Qed.
+
+(** field-group helpers *)
+Lemma inv_cfg s r pr a mu p fa st : StkInv s -> 0 <= r -> 0 <= a -> 0 <= p <= MAXP ->
+  StkInv (u_cfg s r pr a mu p fa st).
+Proof.
+  intros [cap bal ub ubnd ubnn fr fr2 (w1 & w2 & w3 & w4 & w5 & w6 & w7 & w8 & w9)] Hr Ha Hp.
+  constructor; simpl; auto. repeat split; auto; lia.
+Qed.
+
+Lemma inv_bump s : StkInv s -> StkInv (bump s).
+Proof.
+  intros [cap bal ub ubnd ubnn fr fr2 wf]. constructor; simpl; auto.
+  - intros k Hk. specialize (fr k Hk). lia.
+  - intros k e Hk. specialize (fr2 k e Hk). lia.
+Qed.
+
+Lemma find_z_app l n e k : k <> n -> find_z (l ++ [(n, e)]) k = find_z l k.
+Proof.
+  intros Hk. induction l as [|[k' v] t IH]; simpl.
+  - destruct (n =? k) eqn:E; [apply Z.eqb_eq in E; congruence | reflexivity].
+  - destruct (k' =? k); [reflexivity | exact IH].
+Qed.
+
+Lemma find_z_app_new l n e : (forall k v, In (k, v) l -> k <> n) -> find_z (l ++ [(n, e)]) n = Some e.
+Proof.
+  intros H. induction l as [|[k' v] t IH]; simpl.
+  - rewrite Z.eqb_refl. reflexivity.
+  - destruct (k' =? n) eqn:E.
+    + apply Z.eqb_eq in E. exfalso. apply (H k' v); [left; reflexivity | exact E].
+    + apply IH. intros k v0 Hin. apply (H k v0). right. exact Hin.
+Qed.
+
+Lemma find_z_in l k v : find_z l k = Some v -> In (k, v) l.
+Proof.
+  induction l as [|[k' v'] t IH]; simpl; [discriminate|].
+  destruct (k' =? k) eqn:E; intros H.
+  - apply Z.eqb_eq in E. inversion H; subst. left. reflexivity.
+  - right. apply IH. exact H.
+Qed.
+
+(** minting an unbond token for [amt] taken out of principal (or sent along by the proxy) *)
+Lemma inv_mint_unbond s ep amt s' n (delta : Z) : mint_unbond s ep amt = (s', n) -> 0 <= amt ->
+  (* the pre-state satisfies the invariant except that the balance identity is off by amt (the principal
+     that left the supply, or the tokens the proxy sent along) *)
+  0 <= s_acc s <= s_cap s ->
+  s_bal s = (s_supply s - s_virt s) + (s_ubtot s + amt) + (s_cap s - s_acc s) + s_reserve s + s_don s ->
+  s_ubtot s = asum (s_ubamt s) -> NoDup (akeys (s_ubamt s)) -> all_nonneg (s_ubamt s) ->
+  (forall k, In k (akeys (s_ubamt s)) -> k < s_next s) -> (forall k e, In (k, e) (s_ub s) -> k < s_next s) ->
+  (0 < s_dsc s /\ 0 <= s_rate s /\ 0 <= s_apr s /\ 0 <= s_pct s <= MAXP /\ 0 <= s_supply s /\
+         0 <= s_reserve s /\ 0 <= s_pool s /\ 0 <= s_don s /\ 0 <= s_rps s) ->
+  StkInv s' /\ n = s_next s /\ find_z (s_ub s') n = Some (ep + s_minub s) /\
+  (forall k, k <> n -> find_z (s_ub s') k = find_z (s_ub s) k) /\ aget (s_ubamt s') n = amt.
+Proof.
+  unfold mint_unbond. intros H Ha cap bal ub ubnd ubnn fr fr2 wf. inversion H; subst s' n; clear H.
+  assert (O0 : aget (s_ubamt s) (s_next s) = 0).
+  { apply aget_notin. intros Hin. specialize (fr _ Hin). lia. }
+  split; [|split; [reflexivity|split; [|split]]].
+  - constructor; simpl.
+    + exact cap.
+    + lia.
+    + rewrite asum_aset by assumption. rewrite O0. lia.
+    + apply nodup_aset. assumption.
+    + apply all_nonneg_aset; assumption.
+    + intros k Hk. apply akeys_aset_in in Hk. destruct Hk as [->|Hk]; [lia | specialize (fr _ Hk); lia].
+    + intros k e Hk. apply in_app_or in Hk. destruct Hk as [Hk|[Hk|[]]].
+      * specialize (fr2 _ _ Hk). lia.
+      * inversion Hk; subst. lia.
+    + exact wf.
+  - simpl. apply find_z_app_new. intros k v Hin. specialize (fr2 _ _ Hin). lia.
+  - intros k Hk. simpl. apply find_z_app. exact Hk.
+  - simpl. apply aget_aset_same.
+Qed.
+
+Ltac pay_fields H I :=
+  let P := fresh "P" in
+  pose proof (pay_spec _ _ _ _ H I) as P;
+  destruct P as (?Hb & ?Hr & ?Hp & ?Hbl & ?Res & ?Pl & ?Bl & ?Cp & ?Ac & ?Su & ?Vi & ?Ut & ?Ub & ?Ua & ?Nx & ?Dn & ?Ds & ?Rt & ?Ap & ?Pc & ?Rp & ?Mu & ?St & ?La & ?Pr & ?Fa).
+
+(** every successful operation preserves the invariant *)
+Lemma sstep_inv s op s' o : sstep s op = Ok (s', o) -> StkInv s -> StkInv s'.
+Proof.
+  intros H I. destruct op; cbn [sstep] in H.
+  - (* Stake *)
+    destruct ((0 <? amt) && (0 <=? adds)) eqn:E; [|discriminate].
+    apply andb_prop in E. destruct E as [E1 E2]. apply Z.ltb_lt in E1.
+    apply bind_ok in H. destruct H as (s0 & H0 & H).
+    destruct (active s0); [|discriminate]. destruct (adds <=? s_supply s0); [|discriminate].
+    apply bind_ok in H. destruct H as (s1 & H1 & H). inversion H; subst; clear H.
+    pose proof (pay_inv _ _ _ _ H0 I) as I0.
+    apply settle_spec in H1; auto. destruct H1 as (I1 & _).
+    apply inv_bump. destruct I1 as [cap bal ub ubnd ubnn fr fr2 (w1 & w2 & w3 & w4 & w5 & w6 & w7 & w8 & w9)].
+    constructor; simpl; auto; try lia; try (repeat split; auto; lia).
+  - (* StakeProxy *)
+    destruct ((0 <? amt) && (0 <=? adds)) eqn:E; [|discriminate].
+    apply andb_prop in E. destruct E as [E1 E2]. apply Z.ltb_lt in E1.
+    apply bind_ok in H. destruct H as (s0 & H0 & H).
+    destruct (active s0); [|discriminate]. destruct (adds <=? s_supply s0); [|discriminate].
+    apply bind_ok in H. destruct H as (s1 & H1 & H). inversion H; subst; clear H.
+    pose proof (pay_inv _ _ _ _ H0 I) as I0.
+    apply settle_spec in H1; auto. destruct H1 as (I1 & _).
+    apply inv_bump. destruct I1 as [cap bal ub ubnd ubnn fr fr2 (w1 & w2 & w3 & w4 & w5 & w6 & w7 & w8 & w9)].
+    constructor; simpl; auto; try lia; try (repeat split; auto; lia).
+  - (* Claim *)
+    destruct (active s); [|discriminate]. destruct (_ && _); [|discriminate].
+    apply bind_ok in H. destruct H as (s1 & H1 & H).
+    apply bind_ok in H. destruct H as (s2 & H2 & H). inversion H; subst; clear H.
+    apply settle_spec in H1; auto. destruct H1 as (I1 & _).
+    apply inv_bump. eapply pay_inv; eauto.
+  - (* ClaimNewValue *)
+    destruct (active s); [|discriminate]. destruct (_ && _) eqn:E; [|discriminate].
+    apply andb_prop in E. destruct E as [E Env]. apply Z.leb_le in Env.
+    apply bind_ok in H. destruct H as (s1 & H1 & H).
+    apply bind_ok in H. destruct H as (s2 & H2 & H).
+    apply bind_ok in H. destruct H as (sup & Hs & H).
+    apply bind_ok in H. destruct H as (vir & Hv & H). inversion H; subst; clear H.
+    apply settle_spec in H1; auto. destruct H1 as (I1 & _).
+    pose proof (pay_inv _ _ _ _ H2 I1) as I2.
+    apply sub_chk_ok in Hs, Hv. destruct Hs as [Hs ->]. destruct Hv as [Hv ->].
+    apply inv_bump. destruct I2 as [cap bal ub ubnd ubnn fr fr2 (w1 & w2 & w3 & w4 & w5 & w6 & w7 & w8 & w9)].
+    constructor; simpl; auto; try lia; try (repeat split; auto; lia).
+  - (* Compound *)
+    destruct (active s); [|discriminate]. destruct (_ && _); [|discriminate].
+    apply bind_ok in H. destruct H as (s1 & H1 & H).
+    apply bind_ok in H. destruct H as (s2 & H2 & H). inversion H; subst; clear H.
+    apply settle_spec in H1; auto. destruct H1 as (I1 & _).
+    pose proof (pay_inv _ _ _ _ H2 I1) as I2. pay_fields H2 I1.
+    apply inv_bump. destruct I2 as [cap bal ub ubnd ubnn fr fr2 (w1 & w2 & w3 & w4 & w5 & w6 & w7 & w8 & w9)].
+    constructor; simpl; auto; try lia; try (repeat split; auto; lia).
+  - (* Unstake *)
+    destruct (active s); [|discriminate]. destruct (0 <? x) eqn:Ex; [|discriminate]. apply Z.ltb_lt in Ex.
+    apply bind_ok in H. destruct H as (s1 & H1 & H).
+    apply bind_ok in H. destruct H as (s2 & H2 & H).
+    apply bind_ok in H. destruct H as (sup & Hs & H).
+    destruct (mint_unbond _ ep x) as [s4 n] eqn:Hm. inversion H; subst; clear H.
+    apply settle_spec in H1; auto. destruct H1 as (I1 & _).
+    pose proof (pay_inv _ _ _ _ H2 I1) as I2.
+    apply sub_chk_ok in Hs. destruct Hs as [Hs ->].
+    destruct I2 as [cap bal ub ubnd ubnn fr fr2 (w1 & w2 & w3 & w4 & w5 & w6 & w7 & w8 & w9)].
+    apply inv_mint_unbond in Hm; simpl; auto; try lia; try tauto; try (repeat split; auto; lia).
+  - (* UnstakeProxy *)
+    destruct (active s); [|discriminate]. destruct ((0 <? x) && (0 <? t)) eqn:Ex; [|discriminate].
+    apply andb_prop in Ex. destruct Ex as [Ex Et]. apply Z.ltb_lt in Ex, Et.
+    apply bind_ok in H. destruct H as (s1 & H1 & H).
+    apply bind_ok in H. destruct H as (s2 & H2 & H).
+    apply bind_ok in H. destruct H as (sup & Hs & H).
+    apply bind_ok in H. destruct H as (vir & Hv & H).
+    destruct (mint_unbond _ ep t) as [s4 n] eqn:Hm. inversion H; subst; clear H.
+    apply settle_spec in H1; auto. destruct H1 as (I1 & _).
+    pose proof (pay_inv _ _ _ _ H2 I1) as I2.
+    apply sub_chk_ok in Hs, Hv. destruct Hs as [Hs ->]. destruct Hv as [Hv ->].
+    destruct I2 as [cap bal ub ubnd ubnn fr fr2 (w1 & w2 & w3 & w4 & w5 & w6 & w7 & w8 & w9)].
+    apply inv_mint_unbond in Hm; simpl; auto; try lia; try tauto; try (repeat split; auto; lia).
+  - (* Unbond *)
+    destruct (active s); [|discriminate]. destruct (0 <? amt) eqn:Ea; [|discriminate]. apply Z.ltb_lt in Ea.
+    destruct (find_z (s_ub s) n) as [unlock|] eqn:Ef; [|discriminate].
+    destruct (unlock <=? ep); [|discriminate].
+    apply bind_ok in H. destruct H as (rest & Hr & H).
+    apply bind_ok in H. destruct H as (bal' & Hb & H).
+    apply bind_ok in H. destruct H as (tot & Ht & H). inversion H; subst; clear H.
+    apply sub_chk_ok in Hr, Hb, Ht. destruct Hr as [Hr ->]. destruct Hb as [Hb ->]. destruct Ht as [Ht ->].
+    destruct I as [cap bal ub ubnd ubnn fr fr2 (w1 & w2 & w3 & w4 & w5 & w6 & w7 & w8 & w9)].
+    assert (Hin : In n (akeys (s_ubamt s))).
+    { destruct (in_dec Z.eq_dec n (akeys (s_ubamt s))); [assumption|]. rewrite aget_notin in Hr by assumption. lia. }
+    constructor; simpl.
+    + exact cap.
+    + lia.
+    + rewrite asum_aset by assumption. lia.
+    + apply nodup_aset. assumption.
+    + apply all_nonneg_aset; [assumption | lia].
+    + intros k Hk. apply akeys_aset_in in Hk. destruct Hk as [->|Hk]; auto.
+    + exact fr2.
+    + repeat split; auto; lia.
+  - (* Merge *)
+    destruct (active s); [|discriminate].
+    apply bind_ok in H. destruct H as (s0 & H0 & H). inversion H; subst; clear H.
+    apply inv_bump. eapply pay_inv; eauto.
+  - (* ClaimBoosted *)
+    destruct (negb (ut =? 0)); [|discriminate]. destruct (active s); [|discriminate].
+    apply bind_ok in H. destruct H as (s1 & H1 & H).
+    apply bind_ok in H. destruct H as (s2 & H2 & H). inversion H; subst; clear H.
+    apply settle_spec in H1; auto. destruct H1 as (I1 & _). eapply pay_inv; eauto.
+  - (* TopUp *)
+    destruct (is_admin c); [|discriminate]. destruct (0 <? amt) eqn:Ea; [|discriminate]. apply Z.ltb_lt in Ea.
+    inversion H; subst; clear H.
+    destruct I as [cap bal ub ubnd ubnn fr fr2 wf]. constructor; simpl; auto; lia.
+  - (* Withdraw *)
+    destruct (is_admin c); [|discriminate]. destruct (0 <=? w) eqn:Ew; [|discriminate]. apply Z.leb_le in Ew.
+    apply bind_ok in H. destruct H as (s1 & H1 & H).
+    apply bind_ok in H. destruct H as (remaining & Hrem & H).
+    destruct (w <=? remaining) eqn:Ewr; [|discriminate]. apply Z.leb_le in Ewr.
+    apply bind_ok in H. destruct H as (cap' & Hc & H).
+    apply bind_ok in H. destruct H as (bal' & Hb & H). inversion H; subst; clear H.
+    apply settle_spec in H1; auto. destruct H1 as (I1 & _).
+    apply sub_chk_ok in Hrem, Hc, Hb. destruct Hrem as [_ ->]. destruct Hc as [_ ->]. destruct Hb as [_ ->].
+    destruct I1 as [cap bal ub ubnd ubnn fr fr2 wf]. constructor; simpl; auto; lia.
+  - (* SetRate *)
+    destruct (is_admin c); [|discriminate]. destruct (0 <? r) eqn:Er; [|discriminate]. apply Z.ltb_lt in Er.
+    apply bind_ok in H. destruct H as (s1 & H1 & H). inversion H; subst; clear H.
+    apply settle_spec in H1; auto. destruct H1 as (I1 & _).
+    pose proof I1 as [_ _ _ _ _ _ _ (w1 & w2 & w3 & w4 & _)]. apply inv_cfg; auto; lia.
+  - (* Start *)
+    destruct (is_admin c); [|discriminate]. destruct (negb (s_rate s =? 0)); [|discriminate].
+    destruct (negb (s_produce s)); [|discriminate]. inversion H; subst; clear H.
+    pose proof I as [cap bal ub ubnd ubnn fr fr2 (w1 & w2 & w3 & w4 & w5 & w6 & w7 & w8 & w9)].
+    apply inv_cfg; simpl; auto; try lia. constructor; simpl; auto. repeat split; auto; lia.
+  - (* End *)
+    destruct (is_admin c); [|discriminate].
+    apply bind_ok in H. destruct H as (s1 & H1 & H). inversion H; subst; clear H.
+    apply settle_spec in H1; auto. destruct H1 as (I1 & _).
+    pose proof I1 as [_ _ _ _ _ _ _ (w1 & w2 & w3 & w4 & _)]. apply inv_cfg; auto.
+  - (* SetApr *)
+    destruct (is_admin c); [|discriminate]. destruct (0 <? a) eqn:Ea; [|discriminate]. apply Z.ltb_lt in Ea.
+    apply bind_ok in H. destruct H as (s1 & H1 & H). inversion H; subst; clear H.
+    apply settle_spec in H1; auto. destruct H1 as (I1 & _).
+    pose proof I1 as [_ _ _ _ _ _ _ (w1 & w2 & w3 & w4 & _)]. apply inv_cfg; auto; lia.
+  - (* SetMinUnbond *)
+    destruct (is_admin c); [|discriminate]. destruct (_ && _); [|discriminate]. inversion H; subst; clear H.
+    pose proof I as [_ _ _ _ _ _ _ (w1 & w2 & w3 & w4 & _)]. apply inv_cfg; auto.
+  - (* SetPct *)
+    destruct (is_admin c); [|discriminate]. destruct ((0 <=? p) && (p <=? MAXP)) eqn:E; [|discriminate].
+    apply andb_prop in E. destruct E as [E1 E2]. apply Z.leb_le in E1, E2.
+    apply bind_ok in H. destruct H as (s1 & H1 & H). inversion H; subst; clear H.
+    apply settle_spec in H1; auto. destruct H1 as (I1 & _).
+    pose proof I1 as [_ _ _ _ _ _ _ (w1 & w2 & w3 & w4 & _)]. apply inv_cfg; auto; lia.
+  - (* SetFactors *)
+    destruct (is_admin c); [|discriminate]. inversion H; subst; clear H.
+    pose proof I as [_ _ _ _ _ _ _ (w1 & w2 & w3 & w4 & _)]. apply inv_cfg; auto.
+  - (* SetState *)
+    destruct (is_admin c); [|discriminate]. destruct (_ || _); [|discriminate]. inversion H; subst; clear H.
+    pose proof I as [_ _ _ _ _ _ _ (w1 & w2 & w3 & w4 & _)]. apply inv_cfg; auto.
+  - (* Donate *)
+    destruct (0 <? amt) eqn:Ea; [|discriminate]. apply Z.ltb_lt in Ea. inversion H; subst; clear H.
+    destruct I as [cap bal ub ubnd ubnn fr fr2 (w1 & w2 & w3 & w4 & w5 & w6 & w7 & w8 & w9)].
+    constructor; simpl; auto; try lia; try (repeat split; auto; lia).
+Qed.
+
+Lemma init_inv dsc apr minub : 0 < dsc -> 0 < apr -> StkInv (init_stk dsc apr minub).
+Proof.
+  intros Hd Ha. pose proof maxp_pos. constructor; simpl; try lia; try constructor; try (intros k []); try (intros k e []); try (repeat split; lia).
+Qed.
+
+Lemma srun_inv ops : forall s, StkInv s -> StkInv (srun s ops).
+Proof.
+  induction ops as [|op t IH]; intros s I; simpl; [exact I|].
+  apply IH. unfold sstep_total. destruct (sstep s op) as [[s' o]|] eqn:E; [|exact I].
+  eapply sstep_inv; eauto.
+Qed.
+
+(** ------------------------------------------------------------------ C12 specifics *)
+(** the per-block APR bound is at most supply * maxAPR / (10000 * blocks_per_year) *)
+Lemma apr_per_block_bound s : 0 <= s_supply s -> 0 <= s_apr s ->
+  apr_per_block s * (MAXP * BLOCKS_IN_YEAR) <= s_supply s * s_apr s.
+Proof.
+  intros Hs Ha. unfold apr_per_block. pose proof maxp_pos as HM. pose proof by_pos as HB.
+  pose proof (div_lo (s_supply s * s_apr s) MAXP HM) as A.
+  set (q := s_supply s * s_apr s / MAXP) in *.
+  assert (0 <= q) by (apply div_nonneg; nia).
+  pose proof (div_lo q BLOCKS_IN_YEAR HB) as B.
+  set (r := q / BLOCKS_IN_YEAR) in *. clearbody q r. nia.
+Qed.
+
+Lemma settle_accrual s blk s' : settle s blk = Ok s' -> StkInv s ->
+  let d := Z.max 0 (blk - s_last s) in
+  0 <= s_acc s' - s_acc s /\
+  s_acc s' <= s_cap s' /\
+  (s_acc s' - s_acc s) * (MAXP * BLOCKS_IN_YEAR) <= d * (s_supply s * s_apr s) /\
+  s_acc s' - s_acc s <= d * s_rate s /\
+  (s_produce s = false -> s_acc s' = s_acc s) /\
+  s_reserve s' - s_reserve s = s_acc s' - s_acc s.
+Proof.
+  intros H I d. pose proof I as [_ _ _ _ _ _ _ (w1 & w2 & w3 & w4 & w5 & _)].
+  apply settle_spec in H; auto.
+  destruct H as ([cap' _ _ _ _ _ _ _] & total & T0 & Ac & Re & Tc & Tb & Tz & _).
+  pose proof (apr_per_block_bound s w5 w3) as HB.
+  pose proof (apr_per_block_nonneg s w5 w3) as HA.
+  unfold d. destruct (Z_lt_le_dec (s_last s) blk) as [Hlt|Hge].
+  - destruct (Tb Hlt) as [T1 T2]. replace (Z.max 0 (blk - s_last s)) with (blk - s_last s) by lia.
+    repeat split; try lia.
+    + pose proof maxp_pos. pose proof by_pos.
+      set (K := MAXP * BLOCKS_IN_YEAR) in *. assert (HK : 0 < K) by (unfold K; nia).
+      set (D := blk - s_last s) in *. set (A := apr_per_block s) in *.
+      assert (S1 : total * K <= A * D * K) by nia.
+      assert (S2 : A * D * K <= D * (s_supply s * s_apr s)) by nia.
+      rewrite Ac. replace (s_acc s + total - s_acc s) with total by lia. lia.
+    + destruct (s_produce s); nia.
+    + intros Hp. rewrite Hp in T2. lia.
+  - specialize (Tz Hge). replace (Z.max 0 (blk - s_last s)) with 0 by lia. repeat split; lia.
+Qed.
+
+Lemma ub_preserved s op s' o n e : sstep s op = Ok (s', o) -> StkInv s ->
+  find_z (s_ub s) n = Some e -> find_z (s_ub s') n = Some e.
+Proof.
+  intros H I Hf.
+  assert (Hn : n < s_next s) by (destruct I as [_ _ _ _ _ _ fr2 _]; apply (fr2 n e); apply find_z_in; exact Hf).
+  assert (Hset : forall s1 blk s2, settle s1 blk = Ok s2 -> StkInv s1 -> s_ub s2 = s_ub s1 /\ s_next s2 = s_next s1).
+  { intros s1 blk s2 Hs I1. apply settle_spec in Hs; auto. destruct Hs as (_ & total & _ & _ & _ & _ & _ & _ & _ & _ & _ & _ & _ & U & _ & N & _). auto. }
+  destruct op; cbn [sstep] in H.
+  - destruct (_ && _); [|discriminate]. apply bind_ok in H. destruct H as (s0 & H0 & H).
+    destruct (active s0); [|discriminate]. destruct (adds <=? s_supply s0); [|discriminate].
+    apply bind_ok in H. destruct H as (s1 & H1 & H). inversion H; subst; clear H. simpl.
+    pose proof (pay_inv _ _ _ _ H0 I) as I0. pay_fields H0 I. destruct (Hset _ _ _ H1 I0) as [U _]. congruence.
+  - destruct (_ && _); [|discriminate]. apply bind_ok in H. destruct H as (s0 & H0 & H).
+    destruct (active s0); [|discriminate]. destruct (adds <=? s_supply s0); [|discriminate].
+    apply bind_ok in H. destruct H as (s1 & H1 & H). inversion H; subst; clear H. simpl.
+    pose proof (pay_inv _ _ _ _ H0 I) as I0. pay_fields H0 I. destruct (Hset _ _ _ H1 I0) as [U _]. congruence.
+  - destruct (active s); [|discriminate]. destruct (_ && _); [|discriminate].
+    apply bind_ok in H. destruct H as (s1 & H1 & H). apply bind_ok in H. destruct H as (s2 & H2 & H).
+    inversion H; subst; clear H. simpl. destruct (Hset _ _ _ H1 I) as [U _].
+    apply settle_spec in H1; auto. destruct H1 as (I1 & _). pay_fields H2 I1. congruence.
+  - destruct (active s); [|discriminate]. destruct (_ && _); [|discriminate].
+    apply bind_ok in H. destruct H as (s1 & H1 & H). apply bind_ok in H. destruct H as (s2 & H2 & H).
+    apply bind_ok in H. destruct H as (sup & _ & H). apply bind_ok in H. destruct H as (vir & _ & H).
+    inversion H; subst; clear H. simpl. destruct (Hset _ _ _ H1 I) as [U _].
+    apply settle_spec in H1; auto. destruct H1 as (I1 & _). pay_fields H2 I1. congruence.
+  - destruct (active s); [|discriminate]. destruct (_ && _); [|discriminate].
+    apply bind_ok in H. destruct H as (s1 & H1 & H). apply bind_ok in H. destruct H as (s2 & H2 & H).
+    inversion H; subst; clear H. simpl. destruct (Hset _ _ _ H1 I) as [U _].
+    apply settle_spec in H1; auto. destruct H1 as (I1 & _). pay_fields H2 I1. congruence.
+  - destruct (active s); [|discriminate]. destruct (0 <? x); [|discriminate].
+    apply bind_ok in H. destruct H as (s1 & H1 & H). apply bind_ok in H. destruct H as (s2 & H2 & H).
+    apply bind_ok in H. destruct H as (sup & _ & H). unfold mint_unbond in H. inversion H; subst; clear H. simpl.
+    destruct (Hset _ _ _ H1 I) as [U N].
+    apply settle_spec in H1; auto. destruct H1 as (I1 & _). pay_fields H2 I1.
+    rewrite find_z_app; [congruence | lia].
+  - destruct (active s); [|discriminate]. destruct (_ && _); [|discriminate].
+    apply bind_ok in H. destruct H as (s1 & H1 & H). apply bind_ok in H. destruct H as (s2 & H2 & H).
+    apply bind_ok in H. destruct H as (sup & _ & H). apply bind_ok in H. destruct H as (vir & _ & H).
+    unfold mint_unbond in H. inversion H; subst; clear H. simpl.
+    destruct (Hset _ _ _ H1 I) as [U N].
+    apply settle_spec in H1; auto. destruct H1 as (I1 & _). pay_fields H2 I1.
+    rewrite find_z_app; [congruence | lia].
+  - destruct (active s); [|discriminate]. destruct (0 <? amt); [|discriminate].
+    destruct (find_z (s_ub s) n0); [|discriminate]. destruct (_ <=? ep); [|discriminate].
+    apply bind_ok in H. destruct H as (rest & _ & H). apply bind_ok in H. destruct H as (b' & _ & H).
+    apply bind_ok in H. destruct H as (t' & _ & H). inversion H; subst; clear H. simpl. exact Hf.
+  - destruct (active s); [|discriminate]. apply bind_ok in H. destruct H as (s0 & H0 & H).
+    inversion H; subst; clear H. simpl. pay_fields H0 I. congruence.
+  - destruct (negb (ut =? 0)); [|discriminate]. destruct (active s); [|discriminate].
+    apply bind_ok in H. destruct H as (s1 & H1 & H). apply bind_ok in H. destruct H as (s2 & H2 & H).
+    inversion H; subst; clear H. destruct (Hset _ _ _ H1 I) as [U _].
+    apply settle_spec in H1; auto. destruct H1 as (I1 & _). pay_fields H2 I1. congruence.
+  - destruct (is_admin c); [|discriminate]. destruct (0 <? amt); [|discriminate]. inversion H; subst. exact Hf.
+  - destruct (is_admin c); [|discriminate]. destruct (0 <=? w); [|discriminate].
+    apply bind_ok in H. destruct H as (s1 & H1 & H). apply bind_ok in H. destruct H as (rem & _ & H).
+    destruct (w <=? rem); [|discriminate]. apply bind_ok in H. destruct H as (c' & _ & H).
+    apply bind_ok in H. destruct H as (b' & _ & H). inversion H; subst; clear H. simpl.
+    destruct (Hset _ _ _ H1 I) as [U _]. congruence.
+  - destruct (is_admin c); [|discriminate]. destruct (0 <? r); [|discriminate].
+    apply bind_ok in H. destruct H as (s1 & H1 & H). inversion H; subst; clear H. simpl.
+    destruct (Hset _ _ _ H1 I) as [U _]. congruence.
+  - destruct (is_admin c); [|discriminate]. destruct (negb (s_rate s =? 0)); [|discriminate].
+    destruct (negb (s_produce s)); [|discriminate]. inversion H; subst. exact Hf.
+  - destruct (is_admin c); [|discriminate].
+    apply bind_ok in H. destruct H as (s1 & H1 & H). inversion H; subst; clear H. simpl.
+    destruct (Hset _ _ _ H1 I) as [U _]. congruence.
+  - destruct (is_admin c); [|discriminate]. destruct (0 <? a); [|discriminate].
+    apply bind_ok in H. destruct H as (s1 & H1 & H). inversion H; subst; clear H. simpl.
+    destruct (Hset _ _ _ H1 I) as [U _]. congruence.
+  - destruct (is_admin c); [|discriminate]. destruct (_ && _); [|discriminate]. inversion H; subst. exact Hf.
+  - destruct (is_admin c); [|discriminate]. destruct (_ && _); [|discriminate].
+    apply bind_ok in H. destruct H as (s1 & H1 & H). inversion H; subst; clear H. simpl.
+    destruct (Hset _ _ _ H1 I) as [U _]. congruence.
+  - destruct (is_admin c); [|discriminate]. inversion H; subst. exact Hf.
+  - destruct (is_admin c); [|discriminate]. destruct (_ || _); [|discriminate]. inversion H; subst. exact Hf.
+  - destruct (0 <? amt); [|discriminate]. inversion H; subst. exact Hf.
+Qed.
+
+Lemma unstake_char s blk ep c x r b s' o : sstep s (SUnstake blk ep c x r b) = Ok (s', o) -> StkInv s ->
+  exists n, o = [n; x; r] /\ n = s_next s /\ find_z (s_ub s') n = Some (ep + s_minub s) /\
+            aget (s_ubamt s') n = x /\ s_supply s' = s_supply s - x /\ 0 < x <= s_supply s /\
+            s_ubtot s' = s_ubtot s + x.
+Proof.
+  intros H I. cbn [sstep] in H.
+  destruct (active s); [|discriminate]. destruct (0 <? x) eqn:Ex; [|discriminate]. apply Z.ltb_lt in Ex.
+  apply bind_ok in H. destruct H as (s1 & H1 & H). apply bind_ok in H. destruct H as (s2 & H2 & H).
+  apply bind_ok in H. destruct H as (sup & Hs & H).
+  destruct (mint_unbond _ ep x) as [s4 n] eqn:Hm. inversion H; subst; clear H.
+  apply settle_spec in H1; auto.
+  destruct H1 as (I1 & total & _ & _ & _ & _ & _ & _ & _ & Su1 & _ & _ & Ut1 & U1 & Ua1 & N1 & _ & _ & _ & Mu1 & _).
+  pay_fields H2 I1. apply sub_chk_ok in Hs. destruct Hs as [Hs ->].
+  unfold mint_unbond in Hm. inversion Hm; subst s' n; clear Hm. simpl.
+  exists (s_next s2). split; [reflexivity|]. split; [congruence|].
+  split; [|split; [apply aget_aset_same | split; [lia | split; [lia | lia]]]].
+  pose proof (pay_inv _ _ _ _ H2 I1) as [_ _ _ _ _ _ fr2 _].
+  rewrite find_z_app_new; [congruence|]. intros k v Hin. specialize (fr2 _ _ Hin). lia.
+Qed.
+
+Lemma unbond_char s ep c n amt s' o : sstep s (SUnbond ep c n amt) = Ok (s', o) ->
+  exists unlock, find_z (s_ub s) n = Some unlock /\ unlock <= ep /\ o = [amt] /\
+    0 < amt <= aget (s_ubamt s) n /\ s_bal s' = s_bal s - amt /\ s_ubtot s' = s_ubtot s - amt /\
+    aget (s_ubamt s') n = aget (s_ubamt s) n - amt /\ s_supply s' = s_supply s /\ s_reserve s' = s_reserve s /\
+    s_cap s' = s_cap s /\ s_acc s' = s_acc s.
+Proof.
+  intros H. cbn [sstep] in H.
+  destruct (active s); [|discriminate]. destruct (0 <? amt) eqn:Ea; [|discriminate]. apply Z.ltb_lt in Ea.
+  destruct (find_z (s_ub s) n) as [unlock|] eqn:Ef; [|discriminate].
+  destruct (unlock <=? ep) eqn:Eu; [|discriminate]. apply Z.leb_le in Eu.
+  apply bind_ok in H. destruct H as (rest & Hr & H).
+  apply bind_ok in H. destruct H as (bal' & Hb & H).
+  apply bind_ok in H. destruct H as (tot & Ht & H). inversion H; subst; clear H.
+  apply sub_chk_ok in Hr, Hb, Ht. destruct Hr as [Hr ->]. destruct Hb as [Hb ->]. destruct Ht as [Ht ->].
+  exists unlock. simpl. repeat split; auto; try lia. apply aget_aset_same.
+Qed.
+
+Lemma unbond_too_early s ep c n amt unlock : find_z (s_ub s) n = Some unlock -> ep < unlock ->
+  is_ok (sstep s (SUnbond ep c n amt)) = false.
+Proof.
+  intros Hf Hlt. cbn [sstep]. destruct (active s); [|reflexivity]. destruct (0 <? amt); [|reflexivity].
+  rewrite Hf. destruct (unlock <=? ep) eqn:E; [apply Z.leb_le in E; lia | reflexivity].
+Qed.
+
+Lemma withdraw_char s blk c w s' o : sstep s (SWithdraw blk c w) = Ok (s', o) -> StkInv s ->
+  exists s1, settle s blk = Ok s1 /\ 0 <= w <= s_cap s1 - s_acc s1 /\ s_cap s' = s_cap s1 - w /\
+             s_acc s' = s_acc s1 /\ s_bal s' = s_bal s - w /\ s_acc s' <= s_cap s' /\ c = OWNER.
+Proof.
+  intros H I. cbn [sstep] in H.
+  destruct (is_admin c) eqn:Ec; [|discriminate]. destruct (0 <=? w) eqn:Ew; [|discriminate]. apply Z.leb_le in Ew.
+  apply bind_ok in H. destruct H as (s1 & H1 & H).
+  apply bind_ok in H. destruct H as (remaining & Hrem & H).
+  destruct (w <=? remaining) eqn:Ewr; [|discriminate]. apply Z.leb_le in Ewr.
+  apply bind_ok in H. destruct H as (cap' & Hc & H).
+  apply bind_ok in H. destruct H as (bal' & Hb & H). inversion H; subst; clear H.
+  apply sub_chk_ok in Hrem, Hc, Hb. destruct Hrem as [_ ->]. destruct Hc as [_ ->]. destruct Hb as [_ ->].
+  exists s1. split; [exact H1|]. apply settle_spec in H1; auto.
+  destruct H1 as (_ & total & _ & _ & _ & _ & _ & _ & _ & _ & _ & Bl & _). simpl.
+  unfold is_admin in Ec. apply Z.eqb_eq in Ec. repeat split; try lia.
+Qed.
